@@ -22,6 +22,20 @@ Theorem c11_old_or_new : forall tmo max fbmax fbdis pool0 s,
   Forall (old_or_new tmo max fbmax fbdis pool0) (snd s).
 Proof. exact old_or_new_reachable. Qed.
 
+(* a reconfiguration is atomic for the settings AS A WHOLE: whenever no SetConfigThreadSafe is between its Lock
+   and its Unlock, the four live settings are those of one installed configuration, never a mixture of two
+   concurrent reconfigurations; and at most one reconfiguration is inside (the forwarding of the new
+   configuration to Configurable open/close logic happens inside too -- a step of the model that the trace tie
+   compares with the code) *)
+Theorem c11_settings_not_torn : forall tmo max fbmax fbdis pool0 s,
+  all_fresh pool0 -> Sched.reach gstep1 (ginit tmo max fbmax fbdis, pool0) s ->
+  g_cfgheld (fst s) = false -> In (settings (fst s)) (installed tmo max fbmax fbdis pool0).
+Proof. exact settings_not_torn. Qed.
+Theorem c11_reconfigurations_exclusive : forall tmo max fbmax fbdis pool0 s,
+  all_fresh pool0 -> Sched.reach gstep1 (ginit tmo max fbmax fbdis, pool0) s ->
+  cnt in_cfg_section (snd s) = if g_cfgheld (fst s) then 1%Z else 0%Z.
+Proof. exact cfg_section_exclusive. Qed.
+
 (* one reconfiguration: the installed configurations are exactly the old and the new one *)
 Example c11_old_or_new_example :
   installed 100%Z 5%Z 5%Z false [Caller RunOk FbNone GStart; Setter 0%Z (-1)%Z (-1)%Z true 0%nat] = [(100, 5, 5, false); (0, -1, -1, true)]%Z.
@@ -66,6 +80,8 @@ Theorem c11_optional_fields_total : forall c q, diag c q <> DPanic.
 Proof. exact diag_total. Qed.
 
 Print Assumptions c11_old_or_new.
+Print Assumptions c11_settings_not_torn.
+Print Assumptions c11_reconfigurations_exclusive.
 Print Assumptions c11_old_or_new_example.
 Print Assumptions c11_opener_live_setting_decides.
 Print Assumptions c11_opener_live_setting_moves_no_counter.
